@@ -37,7 +37,16 @@ class _G:
         return self.here
 
     def _pref(self, s):
-        return '' if s == self.here and self.r.random() < 0.8 else sheet_ref(self.titles[s])
+        if s == self.here and self.r.random() < 0.8:
+            return ''
+        p = sheet_ref(self.titles[s])
+        if p.startswith("'"):
+            # the library's reference regexes mis-read a formula with two quoted sheet prefixes (C02's
+            # business, not ours): at most one per formula, later ones fall back to the own sheet
+            if getattr(self, 'quoted_used', False):
+                return ''
+            self.quoted_used = True
+        return p
 
     def _d(self, s):
         c, rws = self.dims[s]
@@ -50,15 +59,24 @@ class _G:
         dollar = self.r.choice(['', '', '', '$'])
         return '%s%s%s%s%d' % (self._pref(s), dollar, col_letters(cc), dollar, rr + 1)
 
-    def colrange(self, s=None, full=False):
+    def colrange(self, s=None, full=False, plain=False):
         s = self._sheet() if s is None else s
         c, rws = self._d(s)
         cc = self.r.randrange(c)
-        if self.wholecol and self.r.random() < 0.35:
+        if self.wholecol and not plain and self.r.random() < 0.35:
             return '%s%s:%s' % (self._pref(s), col_letters(cc), col_letters(cc))
         r0 = 0 if full else self.r.randrange(rws)
         r1 = rws - 1 if full else self.r.randrange(r0, rws)
-        return '%s%s%d:%s%d' % (self._pref(s), col_letters(cc), r0 + 1, col_letters(cc), r1 + 1)
+        return '%s%s%d:%s%d' % ('' if plain else self._pref(s), col_letters(cc), r0 + 1, col_letters(cc), r1 + 1)
+
+    def own_col(self):
+        """Unprefixed, bounded, full-height column of the formula's own sheet (SUMIF-style functions
+        derive one range from another and choke on prefixes / whole columns)."""
+        return self.colrange(self.here, full=True, plain=True)
+
+    def own_cell(self):
+        c, rws = self._d(self.here)
+        return '%s%d' % (col_letters(self.r.randrange(c)), self.r.randrange(rws) + 1)
 
     def rowrange(self, s=None):
         s = self._sheet() if s is None else s
@@ -109,9 +127,14 @@ def _templates():
     t('max', lambda g: '=MAX(%s)&"k"' % g.area())
     t('count', lambda g: '=COUNT(%s)' % g.area(), 2)
     t('countblank', lambda g: '=COUNTBLANK(%s)' % g.colrange())
-    t('sumif', lambda g: (lambda s: '=SUMIF(%s,">2",%s)' % (g.colrange(s, full=True), g.colrange(s, full=True)))(g._sheet()))
+    t('sumif', lambda g: '=SUMIF(%s,">2",%s)' % (g.own_col(), g.own_col()))
     t('countifs', lambda g: '=COUNTIFS(%s,">0")' % g.colrange(), 2)
-    t('countifs_eq', lambda g: '=COUNTIFS(%s,%s)' % (g.colrange(), g.cell()))
+    t('countifs_eq', lambda g: '=COUNTIFS(%s,%s)' % (g.colrange(), g.cell()), 2)
+    t('countifs_opcell', lambda g: '=COUNTIFS(%s,"%s"&%s)' % (g.colrange(), g.r.choice(['>', '<', '>=', '<=', '<>']), g.cell()), 2)
+    t('sumif_opcell', lambda g: '=SUMIF(%s,"%s"&%s,%s)' % (g.own_col(), g.r.choice(['>', '<', '<>']), g.own_cell(), g.own_col()), 2)
+    t('sumif_cell', lambda g: '=SUMIF(%s,%s,%s)' % (g.own_col(), g.own_cell(), g.own_col()))
+    t('sumifs_cell', lambda g: '=SUMIFS(%s,%s,%s)' % (g.own_col(), g.own_col(), g.own_cell()), 2)
+    t('averageifs_opcell', lambda g: '=AVERAGEIFS(%s,%s,"%s"&%s)' % (g.own_col(), g.own_col(), g.r.choice(['>', '<', '>=']), g.own_cell()))
     t('vlookup', lambda g: (lambda a: '=VLOOKUP(%s,%s,%d,FALSE())' % (g.cell(), a[0], g.r.randint(1, a[1])))(g.rect(mincols=2)), 2)
     t('index', lambda g: (lambda a: '=INDEX(%s,%d,%d)' % (a[0], g.r.randint(1, a[2]), g.r.randint(1, a[1])))(g.rect()), 2)
     t('match', lambda g: '=MATCH(%s,%s,0)' % (g.cell(), g.colrange()))
@@ -217,12 +240,63 @@ def wholecol_refs(spec):
     return out
 
 
+REF_RE = re.compile(r"((?:'(?P<q>[^']*)'|(?P<u>\w+))!)?\$?(?P<c1>[A-Z]+)\$?(?P<r1>\d+)(?::\$?(?P<c2>[A-Z]+)\$?(?P<r2>\d+))?")
+
+
+def precedents(spec):
+    """{(s,c,r) of a formula cell: set of (s,c,r) it reads, transitively} — by regex over the formula
+    text (bounded areas and single cells; whole columns contribute their used rows)."""
+    titles = [sh['title'] for sh in spec['sheets']]
+    dims = spec_dims(spec)
+    direct = {}
+    for si, sh in enumerate(spec['sheets']):
+        for k, v in sh['cells'].items():
+            if not (isinstance(v, str) and v.startswith('=')):
+                continue
+            c0, r0 = wbgen.parse_a1(k)
+            acc = set()
+            text = re.sub(r'"[^"]*"', '""', v)
+            for m in REF_RE.finditer(text):
+                t = m.group('q') or m.group('u')
+                ts = titles.index(t) if t in titles else si
+                ca, ra = wbgen.col_index(m.group('c1')), int(m.group('r1')) - 1
+                cb, rb = (wbgen.col_index(m.group('c2')), int(m.group('r2')) - 1) if m.group('c2') else (ca, ra)
+                for cc in range(min(ca, cb), max(ca, cb) + 1):
+                    for rr in range(min(ra, rb), max(ra, rb) + 1):
+                        if (cb - ca + 1) * (rb - ra + 1) <= 64:
+                            acc.add((ts, cc, rr))
+            for m in WHOLECOL_RE.finditer(text):
+                t = m.group('q') or m.group('u')
+                ts = titles.index(t) if t in titles else si
+                for cc in range(wbgen.col_index(m.group('c1')), wbgen.col_index(m.group('c2')) + 1):
+                    for rr in range(dims[ts][1]):
+                        acc.add((ts, cc, rr))
+            direct[(si, c0, r0)] = acc
+    # transitive closure
+    closed = {}
+    for f in direct:
+        seen, todo = set(), list(direct[f])
+        while todo:
+            x = todo.pop()
+            if x in seen:
+                continue
+            seen.add(x)
+            todo.extend(direct.get(x, ()))
+        closed[f] = seen
+    return closed
+
+
 # ----------------------------------------------------------------------------------------------
 # plan generation
 
-def _target(r, spec, dims, meta, beyond, written):
+def _target(r, spec, dims, meta, beyond, written, prec=None):
     """Pick an override target (sheet, col, row)."""
     k = r.random()
+    if prec and r.random() < 0.3:
+        # something a formula actually reads (a constant, a blank inside a referenced area, another formula)
+        f = r.choice(sorted(prec))
+        if prec[f]:
+            return list(r.choice(sorted(prec[f])))
     if written and k < 0.35:
         return list(r.choice(written))
     s = r.randrange(len(spec['sheets']))
@@ -264,6 +338,11 @@ def gen_plan(seed, cfg):
     spec, meta = gen_workbook(r, swarm)
     dims = spec_dims(spec)
     titles = [s['title'] for s in spec['sheets']]
+    prec = precedents(spec)
+    dependants = {}
+    for f, ps in prec.items():
+        for p in ps:
+            dependants.setdefault(p, []).append(list(f))
     plan = {'engine': NAME, 'mode': mode, 'seed': seed, 'swarm': swarm, 'spec': spec, 'meta': meta, 'ops': []}
     ops = plan['ops']
     written = []          # targets written so far (any executor)
@@ -286,7 +365,7 @@ def gen_plan(seed, cfg):
         cells = []
         seen = set()
         for _ in range(n):
-            tg = _target(r, spec, dims, meta, swarm['beyond'], written)
+            tg = _target(r, spec, dims, meta, swarm['beyond'], written, prec)
             if tuple(tg) in seen:
                 continue
             seen.add(tuple(tg))
@@ -322,7 +401,16 @@ def gen_plan(seed, cfg):
             ex = r.randrange(swarm['n_ex'])
             client = r.randrange(swarm['n_clients'])
             if i == 0 or r.random() < 0.45:
-                ops.append(gen_set(ex, client))
+                st = gen_set(ex, client)
+                deps = [d for c in st['cells'] for d in dependants.get(tuple(c['tg']), [])]
+                if deps and r.random() < 0.5:
+                    # motif: query a dependant, override one of its precedents, query the same dependant again
+                    d = r.choice(deps)
+                    ops.append({'op': 'get', 'ex': ex, 'client': client, 'at': addr(d), 'tg': d})
+                    ops.append(st)
+                    ops.append({'op': 'get', 'ex': ex, 'client': r.randrange(swarm['n_clients']), 'at': addr(d), 'tg': d})
+                else:
+                    ops.append(st)
             else:
                 ops.append(gen_query(ex, client))
         ops.append(gen_query(0, 0))
@@ -710,6 +798,15 @@ def _classify_c04(plan, ctx, op, ent, e, O, HIST, dims, what, o, x, okey=None):
             return r2['cells'].get(okey) == o
         return all(a == b for _, a, b, _k in _observed_expected(op, ent, r2))
 
+    beyond = [k for k in cur if int(k.split(':')[2]) >= dims[int(k.split(':')[0])][1] or int(k.split(':')[1]) >= dims[int(k.split(':')[0])][0]]
+    if beyond:
+        o2 = {k: v for k, v in cur.items() if k not in beyond}
+        if explains(o2):
+            return 'beyond-range-override-invisible'
+        for k in beyond:
+            o2 = {kk: v for kk, v in cur.items() if kk != k}
+            if explains(o2):
+                return 'beyond-range-override-invisible'
     # an earlier write to a multiply-written cell survived (or a later one was lost)
     for k, hist in HIST[e].items():
         seen = []
@@ -722,15 +819,6 @@ def _classify_c04(plan, ctx, op, ent, e, O, HIST, dims, what, o, x, okey=None):
             o2[k] = v
             if explains(o2):
                 return 'earlier-write-survives'
-    beyond = [k for k in cur if int(k.split(':')[2]) >= dims[int(k.split(':')[0])][1] or int(k.split(':')[1]) >= dims[int(k.split(':')[0])][0]]
-    if beyond:
-        o2 = {k: v for k, v in cur.items() if k not in beyond}
-        if explains(o2):
-            return 'beyond-range-override-invisible'
-        for k in beyond:
-            o2 = {kk: v for kk, v in cur.items() if kk != k}
-            if explains(o2):
-                return 'beyond-range-override-invisible'
     formulas = set(_okey(t) for t in plan['meta']['formulas'])
     for k in cur:
         o2 = {kk: v for kk, v in cur.items() if kk != k}
